@@ -467,8 +467,12 @@ func runC14(c *Ctx) {
 	// ---- C14.6 set names and packages
 	if mr := resolveRole(c, migPkg, "(*Migrator).mergeResults"); mr != nil {
 		c.seen(fnName(mr))
+		var mrBlocks []*ssa.BasicBlock
+		for _, f := range family(L, mr) {
+			mrBlocks = append(mrBlocks, f.Blocks...)
+		}
 		okDup := false
-		for _, b := range mr.Blocks {
+		for _, b := range mrBlocks {
 			for _, in := range b.Instrs {
 				lk, ok := in.(*ssa.Lookup)
 				if !ok || !lk.CommaOk || lk.X.Type().String() != "map[string]string" {
@@ -492,7 +496,7 @@ func runC14(c *Ctx) {
 		}
 		c.check(okDup, "C14.6", "mergeResults:duplicate-set-name", L.pos(mr.Pos()), "a set name defined in two files is refused; otherwise it is recorded", "found edge returns MergeError, not-found edge inserts the same key")
 		okPkg := false
-		for _, b := range mr.Blocks {
+		for _, b := range mrBlocks {
 			for _, in := range b.Instrs {
 				bo, ok := in.(*ssa.BinOp)
 				if !ok || bo.Op != token.NEQ || !types.Identical(bo.X.Type(), types.Typ[types.String]) {
